@@ -215,15 +215,33 @@ def new_transport(w, disabled=None, pref_keys=None, pref_pubkeys=None):
 # client: Transport._verify_key
 
 
-def drive_client(w, t, neg, blob, sigbytes, data):
+def drive_client(w, t, neg, blob, sigbytes, data, held=None):
+    """One _verify_key call; `held` = the host key object the transport already holds (a re-key)."""
     t.host_key_type = neg
     t.H = data
-    t.host_key = None
+    t.host_key = held
     try:
         t._verify_key(blob, sigbytes)
     except Exception as e:  # noqa
         return [exn_code(e, w)], e
     return [0] + key_canon(w, t.host_key), None
+
+
+def held_keys(w, label, blob):
+    """Host keys a transport may already hold when a re-key presents `blob`: the very same key
+    (parsed from the same blob), and another key."""
+    p = w.paramiko
+    out = []
+    ty = blob_type(w, blob).decode("latin-1").replace(CERT, "")
+    cls = p.RSAKey if ty == "ssh-rsa" else p.Ed25519Key if ty == "ssh-ed25519" else \
+        p.ECDSAKey if ty.startswith("ecdsa-") else None
+    if cls is not None:
+        try:
+            out.append(("same-key", cls(data=blob)))
+        except Exception:
+            pass
+    out.append(("other-key", w.p384 if label != "p384" else w.ed))
+    return out
 
 
 def client_cases(ctx, w):
@@ -247,6 +265,21 @@ def client_cases(ctx, w):
                 base = neg.replace(CERT, "")
                 ctx.count(("client", neg, label, name, how), nontrivial=True,
                           kind="client-accept" if impl[0] == 0 else "client-reject")
+                # ---- histories: the same call when the transport already holds a host key (re-key) ----
+                for hl, held in held_keys(w, label, blob):
+                    impl2, exc2 = drive_client(w, t, neg, blob, sigb, data, held=held)
+                    ctx.count(("client-rekey", hl, neg, label, name, how), nontrivial=True, kind="client-rekey-" + hl)
+                    rcase = dict(case, side="client", held_host_key=hl)
+                    if impl2[0] == 0 and (name != base or not valid):
+                        ctx.fail("rekey-verify-key-accepts-sha1-downgrade" if sha1_downgrade(name, base) else
+                                 "rekey-verify-key-accepts-other-algorithm",
+                                 "on a re-key (host key already held) Transport._verify_key accepted a signature "
+                                 "whose algorithm (%r) is not the negotiated one (%r)" % (name, neg),
+                                 case=rcase, expected="SSHException", observed="accepted")
+                    elif impl2 != impl:
+                        ctx.fail("verify-key-depends-on-held-host-key",
+                                 "Transport._verify_key decides differently when the transport already holds a "
+                                 "host key", case=rcase, expected=impl, observed=impl2)
                 # ---- the property, stated over the real decision ----
                 if impl[0] == 0 and name != base:
                     ctx.fail("verify-key-accepts-sha1-downgrade" if sha1_downgrade(name, base) else
@@ -406,7 +439,7 @@ def server_cases(ctx, w):
                     # callback / probe variations ride along on a deterministic subset
                     cbf = (vi % 7 == 3)
                     att = not (vi % 5 == 4)
-                    if not ctx.thorough and ci >= 2 and ctx.rng.random() > 0.2:
+                    if not ctx.thorough and ci >= 2 and ctx.rng.random() > 0.1:
                         full = False
                         continue
                     data = session_blob(w, b"session-id-c07", "user", declared, blob)
@@ -619,6 +652,42 @@ def loop_oracle(ctx, w):
         finally:
             finish(tc, ts)
 
+    # ---- re-key: the server signs the SECOND exchange with another algorithm (same host key) ----
+    for disk, forced in ((["ssh-rsa"], None), (["ssh-rsa"], "ssh-rsa"), ([], "ssh-rsa"), (["rsa-sha2-512"], "rsa-sha2-512")):
+        cd = {"keys": disk + ["ssh-ed25519", "ecdsa-sha2-nistp256", "ecdsa-sha2-nistp384", "ecdsa-sha2-nistp521"]}
+        tc, ts = loop_pair(w, cd, {}, w.rsa)
+        try:
+            st, v = handshake(w, tc, ts, Srv)
+            case = {"side": "client-rekey", "client_disabled_keys": disk, "rekey_signed_with": forced or "honest",
+                    "negotiated": tc.host_key_type}
+            ctx.count(("loop-rekey", tuple(disk), forced), nontrivial=True, kind="loopback-rekey")
+            if st != "ok":
+                ctx.fail("handshake-honest-rejected", "honest handshake failed", case=case, observed=repr(v))
+                continue
+            first = tc.host_key_type
+            if forced:
+                ek = Evil(key=w.rsa.key)
+                ek.forced = forced
+                for k in list(ts.server_key_dict):
+                    ts.server_key_dict[k] = ek
+            st, v = with_watchdog(lambda: tc.renegotiate_keys(), 20)
+            case["negotiated_rekey"] = tc.host_key_type
+            alive = tc.is_active()
+            if st == "hang":
+                ctx.fail("rekey-hang", "re-key did not finish", case=case)
+            elif forced and forced != (tc.host_key_type or first).replace(CERT, "") and st == "ok" and alive:
+                ctx.fail("rekey-verify-key-accepts-sha1-downgrade"
+                         if sha1_downgrade(forced, (tc.host_key_type or first).replace(CERT, "")) else
+                         "rekey-verify-key-accepts-other-algorithm",
+                         "re-key completed although the server signed it with %r while %r was negotiated"
+                         % (forced, tc.host_key_type), case=case, expected="SSHException",
+                         observed="re-key completed")
+            elif not forced and (st != "ok" or not alive):
+                ctx.fail("rekey-honest-rejected", "an honest re-key failed", case=case, expected="completed",
+                         observed=repr(v))
+        finally:
+            finish(tc, ts)
+
     # ---- honest handshakes with the other key types ----
     for hk, nm in ((w.p256, "ecdsa-sha2-nistp256"), (w.p384, "ecdsa-sha2-nistp384"), (w.ed, "ssh-ed25519")):
         tc, ts = loop_pair(w, {}, {}, hk)
@@ -754,9 +823,14 @@ def coq_server(nt, c):
 
 
 def model(ctx, run_fn, case_type, cases, render):
+    """never lets a model / translator failure stop the implementation-level oracle"""
     nt = NameTable()
-    texts = [(render(nt, c), impl) for _, c, impl in cases]
-    return ctx.model_mismatches(run_fn, case_type, texts, imports=nt.imports(), shard=400)
+    try:
+        texts = [(render(nt, c), impl) for _, c, impl in cases]
+        return ctx.model_mismatches(run_fn, case_type, texts, imports=nt.imports(), shard=400)
+    except Exception as e:  # noqa
+        ctx.corr_broken.append({"what": "model %s could not be evaluated" % run_fn, "error": repr(e)[-600:]})
+        return []
 
 
 def run(ctx):
@@ -764,8 +838,8 @@ def run(ctx):
                 "ECDSA p256,p384,p521 / Ed25519, plain and cert, truncated, foreign type) x signature name "
                 "(RSA: 6 HASHES names, 3 foreign; EC: 5; Ed: 3) x how the bytes were really made (RSA: SHA-1, "
                 "SHA-256, SHA-512, other data; else real / other data); server = the same x 6 disabled-pubkeys "
-                "sets (first two sets fully enumerated in the quick tier, others sampled at 20 %; thorough: all) "
-                "with callback refusal / key probe riding along; preference lists on generated configurations; "
+                "sets (first two sets fully enumerated in the quick tier, others sampled at 10 %; thorough: all) "
+                "with callback refusal / key probe riding along; every client case repeated with the transport already holding the same / another host key (re-key); preference lists on generated configurations; "
                 "loopback handshakes / authentications against a peer signing with another algorithm.  A case "
                 "is non-trivial when distinct; every case reaches a key-class / name / hash branch.")
     ctx.trusted += ["model coq/Model/C07.v is hand-written; tied to rsakey.py / ecdsakey.py / ed25519key.py / "
@@ -780,8 +854,13 @@ def run(ctx):
     ctx.prove()
     w = build_world(ctx)
 
-    # ---- client ----
+    # ---- implementation-level oracles first (they do not depend on the model) ----
     cc = client_cases(ctx, w)
+    sc, full = server_cases(ctx, w)
+    pc = prefs_cases(ctx, w, 300 if ctx.thorough else 60)
+    nc = loop_oracle(ctx, w)
+
+    # ---- model comparisons ----
     bad = model(ctx, "run_client", "(name * (name * Z) * name * list Z)", cc, coq_client)
     for i in bad[:3]:
         ctx.disagree("Transport._verify_key differs from model verify_key", case=cc[i][0], impl=cc[i][2])
@@ -790,8 +869,6 @@ def run(ctx):
         ctx.sample({"verify_key": {"case": acc[0][0], "impl": acc[0][2]}})
     ctx.sample({"verify_key": {"case": cc[5][0], "impl": cc[5][2]}})
 
-    # ---- server ----
-    sc, full = server_cases(ctx, w)
     bad = model(ctx, "run_server", "((list name * list name) * name * (name * Z) * (bool * bool) * name * list Z)",
                 sc, coq_server)
     for i in bad[:3]:
@@ -801,15 +878,11 @@ def run(ctx):
         ctx.sample({"server_pubkey": {"case": acc[0][0], "impl": acc[0][2]}})
     ctx.exhaustive = full
 
-    # ---- preference lists ----
-    pc = prefs_cases(ctx, w, 300 if ctx.thorough else 60)
     bad = model(ctx, "run_prefs", "(list name * list name * list name * list name)", pc,
                 lambda nt, c: "(%s, %s, %s, %s)" % tuple(nt.l(x) for x in c))
     for i in bad[:3]:
         ctx.disagree("preferred_keys / preferred_pubkeys differ from the model", case=pc[i][0], impl=pc[i][2])
 
-    # ---- loopback oracle + negotiated host key ----
-    nc = loop_oracle(ctx, w)
     if nc:
         bad = model(ctx, "run_negotiate", "(list name * list name * list name)", nc,
                     lambda nt, c: "(%s, %s, %s)" % tuple(nt.l(x) for x in c))
@@ -831,7 +904,8 @@ def replay(ctx, rep):
         signer, blob = blobs[case["blob"]]
         data = b"H" * 32
         sigb, valid = make_sig(w, signer, case["sig_name"], case["made_with"], data)
-        impl, exc = drive_client(w, new_transport(w), case["negotiated"], blob, sigb, data)
+        held = dict(held_keys(w, case["blob"], blob)).get(case.get("held_host_key"))
+        impl, exc = drive_client(w, new_transport(w), case["negotiated"], blob, sigb, data, held=held)
         ctx.log("replay client:", case, "->", impl, exc)
         base = case["negotiated"].replace(CERT, "")
         if impl[0] == 0 and (case["sig_name"] != base or not valid):
